@@ -75,16 +75,17 @@ theorem failed_commit_continues {T : List Tx} {fs : FS} {m : Mem} {cs : List CTx
     four system records, log sync) is reported, leaves the content the handle shows unchanged, and
     leaves files whose every crash image (that tears no leaf write of the live tree: known finding
     C01-live-tree-in-place) represents the committed list — nothing is lost, nothing appears.
-    (No leaf split: `NoSplit`.) -/
+    (Leaf splits in a new tree included; only the LIVE tree must be one leaf with room:
+    `NoLiveSplit`.) -/
 theorem failed_compact_atomic {T : List Tx} {fs : FS} {m : Mem} {cs : List CTx} {c : Nat}
-    (h : InvOpen T fs m cs c) (ht : TailPre cfgOfSource fs m) (hns : NoSplit cfgOfSource m fs.pv) (k : Nat)
+    (h : InvOpen T fs m cs c) (ht : TailPre cfgOfSource fs m) (hns : NoLiveSplit cfgOfSource m fs.pv) (k : Nat)
     (hk : k < (ioSteps (compactA cfgOfSource m fs.pv fs.wf)).length) :
     let out := run (compactA cfgOfSource m fs.pv fs.wf) (.faultAt k) fs m
     out.err = some .io ∧
     Spec.Content.same (content out.mem out.fs.pv) (Spec.run T) ∧
     (∀ mode, mode.tearsLive m.proot out.fs.pj = false → Rep T (out.fs.crashP mode) (out.fs.crashW mode)) := by
   intro out
-  obtain ⟨h1, h2, h3, _⟩ := failed_compact (cfg := cfgOfSource) source_ok.1 h ht hns k hk
+  obtain ⟨h1, h2, h3, _⟩ := failed_compact (cfg := cfgOfSource) source_ok.1 C02.leafCap_pos h ht hns k hk
   refine ⟨h1, h3, ?_⟩
   intro mode hm
   obtain ⟨T', hT', hr⟩ := h2 mode hm
@@ -99,13 +100,13 @@ theorem failed_compact_atomic {T : List Tx} {fs : FS} {m : Mem} {cs : List CTx} 
     error of the log sync leaves the complete system transaction in the page cache of the log: for
     those two the continuation is enumerated on model and real engine, not proved.) -/
 theorem failed_compact_continues {T : List Tx} {fs : FS} {m : Mem} {cs : List CTx} {c : Nat}
-    (h : InvOpen T fs m cs c) (ht : TailPre cfgOfSource fs m) (hns : NoSplit cfgOfSource m fs.pv) (k : Nat)
+    (h : InvOpen T fs m cs c) (ht : TailPre cfgOfSource fs m) (hns : NoLiveSplit cfgOfSource m fs.pv) (k : Nat)
     (hk1 : (ioSteps (pagesA cfgOfSource m fs.pv).1).length ≤ k)
     (hk2 : k + 1 < (ioSteps (compactA cfgOfSource m fs.pv fs.wf)).length) :
     let out := run (compactA cfgOfSource m fs.pv fs.wf) (.faultAt k) fs m
     InvOpen T out.fs out.mem cs c ∧ TailPre cfgOfSource out.fs out.mem := by
   intro out
-  exact (failed_compact (cfg := cfgOfSource) source_ok.1 h ht hns k (by omega)).2.2.2 hk1 hk2
+  exact (failed_compact (cfg := cfgOfSource) source_ok.1 C02.leafCap_pos h ht hns k (by omega)).2.2.2 hk1 hk2
 
 /-- **C08 (failed checkpoint-on-close is harmless)**: an I/O error at ANY I/O step of
     `checkpoint_on_close` (page sync, temporary file creation / writes / sync, rename, log sync) is
@@ -144,7 +145,7 @@ def exCompactFacts : Bool :=
   match (runW cfgOfSource [(.openOp, .none), (.commit C02.ex_tx1, .none)]).mem with
   | some m =>
     let fs := (runW cfgOfSource [(.openOp, .none), (.commit C02.ex_tx1, .none)]).fs
-    decide (NoSplit cfgOfSource m fs.pv) &&
+    decide (NoLiveSplit cfgOfSource m fs.pv) &&
     (ioSteps (compactA cfgOfSource m fs.pv fs.wf)).length == 55 &&
     (ioSteps (pagesA cfgOfSource m fs.pv).1).length == 42 &&
     (run (compactA cfgOfSource m fs.pv fs.wf) (.faultAt 20) fs m).err == some .io &&
